@@ -61,6 +61,8 @@ pub fn catalogue() -> Vec<(&'static str, &'static str)> {
     ]
 }
 
+const OPS2: &[&str] = &["+", "-", "*", "/", "//", "%", "&", "|", "^", "<<", ">>", "<", ">=", "==", "!=", "in", "not in", "and", "or", "index"];
+const OPS1: &[&str] = &["-", "+", "~", "not"];
 const SKIP_GLOBALS: &[&str] = &["breakpoint", "print", "pprint", "debug", "emit"];
 
 fn eval_one<'v>(eval: &mut Evaluator<'v, '_, '_>, globals: &starlark::environment::Globals, src: &str) -> (String, bool, String) {
@@ -165,6 +167,36 @@ pub fn record(rest: &[String]) -> anyhow::Result<()> {
                 }
             }
         }
+        // operators: every binary operator x every pair of catalogue values, indexing, the unary
+        // operators; slices with random bounds.  A repetition whose RESULT would need tens of
+        // gigabytes of memory (a non-empty list or tuple x 2^31 and more) is left out: it does not
+        // end in any reasonable time, which is not what this check is about; strings are kept
+        // (the result must be refused, not attempted).
+        let huge = ["c_i31", "c_p31", "c_i63", "c_p64", "c_big", "c_inf"];
+        let seqs = ["c_l", "c_nest", "c_self", "c_t", "c_wrapd", "c_wrapl", "c_pairs"];
+        for op in OPS2 {
+            for a in &names {
+                for b in &names {
+                    let hog = (*op == "*" && ((huge.contains(a) && seqs.contains(b)) || (huge.contains(b) && seqs.contains(a))))
+                        || (*op == "<<" && huge.contains(b));
+                    if !hog {
+                        calls.push((format!("op:{}", op), vec![*a, *b], None));
+                    }
+                }
+            }
+        }
+        for op in OPS1 {
+            for a in &names {
+                calls.push((format!("op:{}", op), vec![*a], None));
+            }
+        }
+        for _ in 0..(triples / 2) {
+            let a = names[rng.below(names.len() as u64) as usize];
+            let b = names[rng.below(names.len() as u64) as usize];
+            let c = names[rng.below(names.len() as u64) as usize];
+            let d = names[rng.below(names.len() as u64) as usize];
+            calls.push((format!("op:{}", ["slice2", "slice3", "if"][rng.below(3) as usize]), vec![a, b, c, d], None));
+        }
         for _ in 0..triples {
             let t = targets[rng.below(targets.len() as u64) as usize].clone();
             let a = names[rng.below(names.len() as u64) as usize];
@@ -197,7 +229,15 @@ pub fn record(rest: &[String]) -> anyhow::Result<()> {
                 if let Some(k) = kw {
                     a.push(format!("{} = {}", k, args.first().copied().unwrap_or("c_0")));
                 }
-                let src = format!("{}({})\n", target, a.join(", "));
+                let src = match target.strip_prefix("op:") {
+                    None => format!("{}({})\n", target, a.join(", ")),
+                    Some("index") => format!("{}[{}]\n", a[0], a[1]),
+                    Some("slice2") => format!("{}[{}:{}]\n", a[0], a[1], a[2]),
+                    Some("slice3") => format!("{}[{}:{}:{}]\n", a[0], a[1], a[2], a[3]),
+                    Some("if") => format!("{} if {} else {}\n", a[0], a[1], a[2]),
+                    Some(op) if a.len() == 1 => format!("{} {}\n", op, a[0]),
+                    Some(op) => format!("{} {} {}\n", a[0], op, a[1]),
+                };
                 if let Some(p) = &progress {
                     std::fs::write(p, format!("{}\t{}", idx, src))?;
                 }
